@@ -2466,6 +2466,13 @@ namespace bloch::runtime {
                 }
             } else if (dynamic_cast<NamedType*>(var->varType.get())) {
                 v.type = Value::Type::Object;
+                // a type parameter bound to qubit: the local is a qubit and gets one, as a field
+                // declared through the parameter does
+                if (m_currentClassCtx && !m_currentClassCtx->typeParamNames.empty() &&
+                    declaredTypeHere(var->varType.get()).kind == Value::Type::Qubit) {
+                    v.type = Value::Type::Qubit;
+                    v.qubit = allocateTrackedQubit(var->name);
+                }
             }
             bool initialized = false;
             if (var->initializer) {
